@@ -53,7 +53,14 @@ CheckDiag(e) ==
     <<"default / fail-on-VE parser recorded entries although reporting is off", (e.d.fail \/ e.d.ve = <<>>) /\ (e.f.fail \/ e.f.ve = <<>>)>>
   >>)
 
+(* ---------------- C14: write sets of read-only calls (spec/ConcProg.tla, strict programs) ---------------- *)
+CP == INSTANCE ConcProg WITH LazyInitOnClone <- FALSE
+CheckWs(e) == Verdicts(<<
+    <<"a read-only call wrote shared state", {e.writes[i] : i \in 1..Len(e.writes)} = CP!WritesOf(e.call)>>
+  >>)
+
 Check(e) == CASE e.k = "law" -> CheckLaw(e)
+              [] e.k = "ws" -> CheckWs(e)
               [] e.k = "diag" -> CheckDiag(e)
               [] OTHER -> <<"unknown event kind">>
 
